@@ -40,7 +40,7 @@ var families = []family{
 			{"metrics.enabled", "false", "true"},              // boolean
 			{"tracing.span_processor", "simple", "batch"},     // name with underscore
 			{"serve.management.port", "9000", "9001"},         // integer
-			{"serve.decision.host", "127.0.0.1", "127.0.0.2"}, // string that looks numeric
+			{"serve.decision.host", "127.0.0.1", `"127"`}, // strings that look numeric / consist of digits
 			{"secrets_reload_enabled", "true", "false"},       // top level name with underscores
 		},
 	},
